@@ -19,5 +19,7 @@ def CC(nl, ml, other, tiers):
               replace=["Array.c", "List.c"], unwind=8, unwindset=us, checks=["bounds", "pointer"], tiers=tiers,
               desc="Array_Cmp/Hash vs %s of lengths %d and %d, symbolic elements" % ("List" if other else "Array", nl, ml))
 OBLIGATIONS += [CC(nl, ml, other, ("quick", "thorough") if (nl + ml) % 2 == (1 if other else 0) or nl == ml else ("thorough",)) for nl in range(4) for ml in range(4) for other in (0, 1)]
+from props._compose import pick as _pick
+OBLIGATIONS += _pick("C04", r"tuple\.cmphash\.n[0-3]m[0-3]") + _pick("C03", r"tree\.cmphash\.")
 LEVEL_TEXT = "Bounded model checking of the real cmp/eq/... code paths: every claim is 'for all values within the stated bounds' (full 64-bit width for Int/Float, strings up to the stated length), decided by SAT; not a proof beyond the bounds."
 LEVEL_NOTE = "Trusted: cbmc's C semantics and IEEE-754 model, the harness reference orders, libc strcmp/memcmp modelled from ISO C. exception_throw replaced by a path-ending recorder."
